@@ -105,6 +105,8 @@ class CaseGen:
             return fam, sd, scen.sd_to_scenario(sd)
         if r < 0.72 or src == ("random",):
             sd = scen.random_sd(rng, small=self.cfg.get("small", False))
+            if rng.random() < self.cfg.get("small_values_frac", 0.0):
+                sd = scen.small_values(rng, sd)
             return "random", sd, scen.sd_to_scenario(sd)
         if r < 0.9 and "shipped" in src:
             name = rng.choice(scen.SHIPPED[:6] if rng.random() < 0.8 else scen.SHIPPED)
@@ -331,7 +333,9 @@ class CaseGen:
         errs = getattr(runner, "last_error", None)
         self.stats["scenario:" + ("random" if name == "random" else "named")] += 1
         self.stats[f"hosts:{len(sd['hosts'])}"] += 1
-        return dict(name=name, sd=sd, modes=modes, ops=ops, cmd=[0, wire, modes, model_ops(ops)], impl=outs, errs=errs, impl_init=runner.init_wire,
+        sp_ = runner.env.observation_space
+        return dict(name=name, sd=sd, modes=modes, ops=ops, cmd=[0, wire, modes, model_ops(ops)], impl=outs,
+                    space=(float(np.min(sp_.low)), float(np.max(sp_.high))), errs=errs, impl_init=runner.init_wire,
                     arg_style=cfg.get("arg_style", "plain"))
 
     def note(self, op, out, flat):
